@@ -81,7 +81,11 @@ def run(rep: Report) -> None:
         nh += 1
         ok, detail = True, ""
         for p in ck.paths:
-            q = next((x for x in base.paths if x.path == p.path), None)
+            # the fresh path taken under the same decisions (the earlier steps may have added
+            # decisions of their own, on other conditions)
+            pa = {(repr(a[0]), a[1]) for a in p.assumptions}
+            cands = [x for x in base.paths if {(repr(a[0]), a[1]) for a in x.assumptions} <= pa]
+            q = max(cands, key=lambda x: len(x.assumptions)) if cands else None
             if q is None or p.raised or q.raised:
                 ok, detail = False, f"the step after earlier steps raises or branches differently ({p.raised})"
                 break
@@ -121,22 +125,26 @@ def run(rep: Report) -> None:
             rep.holds("primitive-pure", inst, r.where)
     rep.floor("primitive runs", len(runs), 150)
 
-    # who may read next_states: only ElementWithVars.step / has_next_states / Network.next_states
-    # and the compilation helpers in engines/casadi.py
-    allowed = {"ElementWithVars.step", "ElementWithVars.has_next_states", "ElementWithVars.__init__",
-               "Network.next_states", "Engine.to_function", "_gather_outputs"}
+    # who reads next_states while stepping: every attribute load of `next_states` /
+    # `has_next_states` met on any interpreted path of Network.step is recorded with the
+    # function it occurs in; only ElementWithVars.step (which stores the results) and the
+    # accessor itself may do so.
+    allowed = {"ElementWithVars.step": "stores the results of the step",
+               "ElementWithVars.has_next_states": "the accessor itself; its readers are recorded too"}
     n_reads = 0
-    for fn in prog.all_functions():
-        for node in walk_no_nested(fn.node):
-            if isinstance(node, ast.Attribute) and node.attr in ("next_states", "has_next_states") \
-                    and isinstance(node.ctx, ast.Load):
-                n_reads += 1
-                ok = fn.qualname in allowed
-                rep.check(ok, "next-states-not-read", f"`{node.attr}` read in {fn.qualname}",
-                          f"{prog.modules[fn.module].relpath}:{node.lineno} {fn.qualname}",
-                          "the dynamics read the previous step's results: stepping again from the same values "
-                          "would depend on history", key=f"nsread|{fn.qualname}")
-    rep.floor("reads of next_states", n_reads, 4)
+    readers: dict = {}
+    for ck in cks:
+        for p in ck.paths:
+            for e in p.events:
+                if e[0] == "next-states-read":
+                    n_reads += 1
+                    readers.setdefault(e[3], (e[1], e[2], ck.cfg.label()))
+    for fnq, (where, detail, lab) in sorted(readers.items()):
+        rep.check(fnq in allowed, "next-states-not-read", f"{detail.split(' of ')[0]} read in {fnq}", where,
+                  f"stepping reads the previous step's results ({detail}; first met in {lab}): stepping again "
+                  "from the same values would depend on history", key=f"nsread|{fnq}")
+    rep.analysed["reads of next_states met while stepping"] = n_reads
+    rep.floor("reads of next_states met while stepping", n_reads, 1000)
 
 
 def _fn(where: str) -> str:
